@@ -35,4 +35,7 @@ PLAN = {
     "C07": {"verus": ["daemon_fsm"], "level": "proof"},
     "C08": {"verus": ["daemon_fsm"], "level": "proof"},
     "C10": {"verus": ["daemon_gr"], "level": "proof"},
+    "C03": {"verus": [], "level": "proof",
+            "kani": ["bfd_decode_total_and_exact", "bfd_decode_mustfail", "rtr_frame_length_contract",
+                     "rtr_from_bytes_total", "rtr_decode_framing", "bgp_try_parse_framing"]},
 }
